@@ -1,6 +1,7 @@
 package chainsim
 
 import (
+	"os"
 	stakingtypes "github.com/cosmos/cosmos-sdk/x/staking/types"
 	"sort"
 	"fmt"
@@ -57,6 +58,8 @@ type FeederActor struct {
 	Bystander  *world.Account // an account no model tracks; may delegate to validators to set up exact power splits
 	forcePlan  bool
 	hold       map[string]int
+	jumpNext   map[string]bool
+	jumpWait   map[string]int
 	lastSent map[string]int64 // validator -> unix time of last accepted-looking submission
 	price    map[string]uint64
 	Lazy     map[string]int // validator -> permille of skipping a due submission
@@ -135,7 +138,42 @@ func (a *FeederActor) stepMarket(e *Env, feeds []feedstypes.Feed) {
 			a.hold[sig]-- // a boundary price stays long enough to become the feed price and be signed
 			continue
 		}
-		switch e.Ch.Weighted("feeder.price.move", []int{45, 12, 12, 25, 2, 2, 2, 4}) {
+		if a.jumpNext[sig] && ts != nil && a.jumpWait[sig] < 25 {
+			// wait (bounded) until some active tunnel has actually sent the tiny price: only then is it the "old" price of a deviation
+			carried, sent := false, false
+			for _, id := range ts.sortedIDs() {
+				t := ts.Tunnels[id]
+				if !t.Active {
+					continue
+				}
+				for _, sd := range t.Signals {
+					if sd.SignalID == sig {
+						carried = true
+						if lp, ok := t.Latest[sig]; ok && lp.Price == a.price[sig] {
+							sent = true
+						}
+					}
+				}
+			}
+			if carried && !sent {
+				if a.jumpWait == nil {
+					a.jumpWait = map[string]int{}
+				}
+				a.jumpWait[sig]++
+				continue
+			}
+		}
+		if a.jumpNext[sig] {
+			delete(a.jumpWait, sig)
+			// after a tiny price: the largest ratios two consecutive feed prices can have (deviation arithmetic in basis points
+			// multiplies the difference by 10^4 and divides by the old price)
+			delete(a.jumpNext, sig)
+			a.price[sig] = []uint64{^uint64(0), 1 << 63, 1<<63 + 1, 1844674407370957, 1 << 60}[e.Ch.Intn("feeder.price.jump", 5)]
+			a.hold[sig] = 2 + e.Ch.Intn("feeder.price.jumphold", 4)
+			e.St.Probe("price_jump_from_tiny_to_huge")
+			continue
+		}
+		switch e.Ch.Weighted("feeder.price.move", []int{45, 12, 12, 25, 2, 2, 2, 4, 2}) {
 		case 1:
 			p += uint64(e.Ch.Intn("feeder.price.up", 500))
 		case 2:
@@ -172,6 +210,20 @@ func (a *FeederActor) stepMarket(e *Env, feeds []feedstypes.Feed) {
 			p = 1
 		case 6:
 			p = ^uint64(0)
+		case 8:
+			// tiny price, held until it has been published and sent, followed by a jump to a huge one
+			p = uint64(1 + e.Ch.Intn("feeder.price.tiny", 9999))
+			if e.Ch.Bool("feeder.price.tiny.one", 400) {
+				p = 1
+			}
+			if a.hold == nil {
+				a.hold = map[string]int{}
+			}
+			if a.jumpNext == nil {
+				a.jumpNext = map[string]bool{}
+			}
+			a.hold[sig] = 3 + e.Ch.Intn("feeder.price.tinyhold", 8)
+			a.jumpNext[sig] = true
 		case 7:
 			// power-of-two family: where bit-length based arithmetic (tick math, fixed-width encodings) changes regime
 			k := 1 + e.Ch.Intn("feeder.price.pow2", 63)
@@ -315,6 +367,14 @@ func (a *FeederActor) Act(e *Env) {
 		a.lastSent = map[string]int64{}
 	}
 	next := e.W.Time.Add(time.Second).Unix()
+	if os.Getenv("VERIF_DEBUG_FEEDS") != "" {
+		e.Log.Add("feeds dbg: cur=%d lastupd=%d totals=%v threshold=%d updint=%d maxfeeds=%d", len(cf.Feeds), cf.LastUpdateBlock, fk.GetSignalTotalPowersByPower(ctx, 10), params.PowerStepThreshold, params.CurrentFeedsUpdateInterval, params.MaxCurrentFeeds)
+	}
+	if len(cf.Feeds) > 0 {
+		e.St.Probe("steps_with_current_feeds")
+	} else {
+		e.St.Probe("steps_without_current_feeds")
+	}
 	a.stepMarket(e, cf.Feeds)
 	a.stepStatusPlan(e, cf.Feeds)
 	for _, v := range e.W.Vals {
